@@ -242,6 +242,28 @@ def search(ctx):
                         found.append({"clause": why, "input": {"servers": repr(servers), "prefix": repr(prefix), "history": repr(hist), "key": repr(k)},
                                       "size": len(hist)})
                         break
+                # multi-key batches, every server up: each server must receive exactly the keys placed on it, each key once
+                if not (found and found[-1]["size"] == len(hist)) and list(hc.hasher.nodes) == nodes_before and hc.hasher.nodes:
+                    ks = rng.sample(keys, rng.randrange(2, 9))
+                    for fam, call in (("set_many", lambda: hc.set_many({k: b"3" for k in ks})), ("get_many", lambda: hc.get_many(ks)),
+                                      ("gets_many", lambda: hc.gets_many(ks))):
+                        MemServer.calls = []
+                        call()
+                        if list(hc.hasher.nodes) != nodes_before:
+                            break
+                        got_pairs = sorted((c[0], repr(c[2])) for c in MemServer.calls if c[1] == fam)
+                        exp_pairs = []
+                        for k in ks:
+                            rk = k[0] if isinstance(k, tuple) else k
+                            bare = k[1] if isinstance(k, tuple) else k
+                            kk = ctx.oracle.call(7, rk)
+                            sv = ctx.oracle.call(5, list(hc.hasher.nodes), kk[1], 0)[1] if kk[0] == "ok" else None
+                            exp_pairs.append((sv, repr(bare)))
+                        n_probe += 1
+                        if got_pairs != sorted(exp_pairs):
+                            found.append({"clause": "%s(%r): servers received %r, placement assigns %r" % (fam, ks, got_pairs[:8], sorted(exp_pairs)[:8]),
+                                          "input": {"servers": repr(servers), "prefix": repr(prefix), "history": repr(hist), "keys": repr(ks)}, "size": len(hist)})
+                            break
                 MemServer.down = downs
                 if found and found[-1]["size"] == len(hist):
                     break
